@@ -605,6 +605,26 @@ fn run_ed25519_trunc(inp: &[u8]) -> Result<(), String> {
         // outside the domain of this property (the ordinary verifier is the subject of ed25519_verify)
         return if variant == 3 { Ok(()) } else { Err("own signature rejected by the ordinary verifier".into()) };
     }
+    if variant == 6 && variant != 3 {
+        // prefix of the NON-canonical S + L (defect D8): the canonical S is the only valid scalar for (R, A, msg), so no
+        // completion of such a prefix is valid and nothing may be returned. The rebuilt value can only collide with the
+        // search range for a fraction ~2^(4-rm) of the signatures: try a batch of derived messages.
+        let sk = PrivateKey::from_seed(seed);
+        let l = BigInt::parse_bytes(b"7237005577332262213973186563042994240857116359379907606001950938285454250989", 10).unwrap();
+        for t in 0..48u8 {
+            let mut m = msg0.to_vec(); m.push(t); m.push(par as u8);
+            let sg = match mode { 0 => sk.sign_raw(&m), 1 => sk.sign_ctx(ctx, &m), _ => sk.sign_ph(ctx, &m) };
+            let s = le_to_int(&sg[32..]) + &l;
+            let mut ts = sg;
+            ts[32..].copy_from_slice(&int_to_le(&s, 32));
+            overwrite_tail(&mut ts, rm, garbage);
+            if let Some(s2) = vtrunc(sk.public_key, &ts, rm, &m) {
+                chk(verify(sk.public_key, &s2, &m), || format!("truncated verification returned {} which the ordinary verifier rejects (prefix of S+L, rm {})", hex(&s2), rm))?;
+                chk(s2[..(512 - rm) / 8] == ts[..(512 - rm) / 8], || format!("rebuilt signature {} does not extend the received prefix {} (prefix of the non-canonical S+L; no completion of it is valid); mode {} rm {} pk {} msg {}", hex(&s2), hex(&ts), mode, rm, hex(&sk.public_key.encode()), hex(&m)))?;
+            }
+        }
+        return Ok(());
+    }
     let mut tsig = sig;
     overwrite_tail(&mut tsig, rm, garbage);
     let mut msg = msg0.to_vec();
@@ -657,6 +677,8 @@ fn sp_ed_trunc_ctl() -> Vec<Vec<u8>> {
         }
     }
     for k in [4u8, 5] { for p in 0..3u8 { v.push(vec![p, 3, 1, 2, 3, 4, k, p, 0xFF, 1, 0, 0]); } }
+    // prefixes of the non-canonical S + L, smallest rm values (where the rebuilt S can fall in the search range)
+    for rm in 8..=10u8 { for p in 0..3u8 { v.push(vec![p, sel_of(rm), 0xFF, 0xFF, 0xFF, 0xFF, 6, p, 0, 0, 0, 0]); v.push(vec![p, sel_of(rm), 0, 0, 0, 0, 6, 8 + p, 0, 0, 0, 0]); } }
     v
 }
 fn rnd_ed_trunc_ctl(r: &mut Rng) -> Vec<u8> {
@@ -723,6 +745,27 @@ fn run_p256_trunc(inp: &[u8]) -> Result<(), String> {
         return chk(got == want, || format!("prepare_truncate({}) = {:?}, documented result {:?}", hex(&sig), got.map(|x| hex(&x)), want.map(|x| hex(&x))));
     }
 
+    if variant == 1 {
+        // defect D9: h*G + r*Q is the point at infinity (Q = -(h/r)*G) and the received value of s is zero: (r, 0) is not a
+        // valid signature, nothing that verify_hash rejects may be returned
+        let mut k = Scalar::decode_reduce(kb);
+        if k.iszero() != 0 { k = Scalar::ONE; }
+        let R = Point::mulgen(&k);
+        let r_int = be_to_int(&R.encode_compressed()[1..]) % &c.n;
+        let r = Scalar::decode_reduce(&int_to_le(&r_int, 32));
+        let mut hle = hv.to_vec(); hle.reverse();
+        let h = Scalar::decode_reduce(&hle);
+        if r.iszero() != 0 || h.iszero() != 0 { return Ok(()); }
+        let Q = Point::mulgen(&(-(h / r)));
+        let pk = PublicKey::decode(&Q.encode_compressed()).ok_or("constructed public key does not decode")?;
+        let mut tsig = int_to_be(&r_int, 32); tsig.extend_from_slice(&[0u8; 32]);
+        overwrite_tail(&mut tsig, rm, garbage);
+        if let Some(s2) = pk.verify_trunc_hash(&tsig, rm, hv) {
+            chk(pk.verify_hash(&s2, hv), || format!("verify_trunc_hash returned {} which the ordinary verifier rejects (h*G + r*Q at infinity, received s = 0); rm {} pk {} hash {}", hex(&s2), rm, hex(&pk.encode_compressed()), hex(hv)))?;
+        }
+        return Ok(());
+    }
+
     // a valid signature (r, s) for hash hv under a public key pk
     // variants 3 / 5 (invalid prefix) use a genuine key pair: with a crafted key (R = k*G for a known k)
     // an altered hash can have a valid completion (e.g. k = 1: (h + d, s + d) is valid for d = 2^249)
@@ -777,6 +820,12 @@ fn run_p256_trunc(inp: &[u8]) -> Result<(), String> {
     let desc = || format!("rm {} variant {} pk {} sig {} prepared {} truncated {} hash {}", rm, variant, hex(&pk.encode_compressed()), hex(&sig), hex(&prep), hex(&tsig), hex(&hv2));
     if let Some(s2) = got {
         chk(pk.verify_hash(&s2, &hv2), || format!("verify_trunc_hash returned {} which the ordinary verifier rejects; {}", hex(&s2), desc()))?;
+        // the rebuilt signature is a completion of the received prefix (r, then s little-endian, last rm bits ignored)
+        let mut sle = s2[32..].to_vec(); sle.reverse();
+        let mut cmp = s2[..32].to_vec(); cmp.extend_from_slice(&sle);
+        let mut a = cmp.clone(); let mut b = tsig.clone();
+        overwrite_tail(&mut a, rm, 0); overwrite_tail(&mut b, rm, 0);
+        chk(a == b, || format!("rebuilt signature {} does not extend the received prefix; {}", hex(&s2), desc()))?;
     }
     if expect_some {
         chk(got.map(|x| x.to_vec()) == Some(full.clone()), || format!("verify_trunc_hash returned {:?} instead of {}; {}", got.map(|s| hex(&s)), hex(&full), desc()))
@@ -801,6 +850,8 @@ fn sp_p256_trunc_ctl() -> Vec<Vec<u8>> {
         }
     }
     for k in [3u8, 5, 7] { for p in 0..3u8 { v.push(vec![3, 1, 2, 3, 4, k, p, 0]); } }
+    // h*G + r*Q at infinity, received s = 0 (defect D9)
+    for rm in [8u8, 13, 16, 24, 32] { v.push(vec![sel_of(rm), 0xFF, 0xFF, 0xFF, 0xFF, 1, 0, 0]); v.push(vec![sel_of(rm), 0, 0, 0, 0, 1, 0, 0]); }
     v.push(vec![0, 0, 0, 0, 0, 6, 0, 0]);
     v
 }
